@@ -63,7 +63,10 @@ Proof.
     split; [|reflexivity]. eapply ids_pres_trans; [exact Hi | apply ids_pres_heap; exact Hh].
   - split; [apply ids_pres_refl | reflexivity].
   - unfold data_of. rewrite Ho. destruct (r_data (o_rec ob)) as [d|]; [|split; [apply ids_pres_refl | reflexivity]].
-    cbn [fst snd]. split; [|reflexivity]. destruct (kv_get d k); [apply ids_pres_hupd | apply ids_pres_refl].
+    destruct (kv_get d k); [|split; [apply ids_pres_refl | reflexivity]].
+    destruct (inv_hupd_hok _ _ _ _ o (fun r => set_data r (Some (kv_del d k))) I H) as [I1 H1]; [reflexivity|].
+    destruct (save_direct_inv _ _ _ _ _ I1 H1) as (s' & E & _ & Hh). rewrite E. cbn [fst snd].
+    split; [|reflexivity]. eapply ids_pres_trans; [apply ids_pres_hupd | apply ids_pres_heap; exact Hh].
   - destruct (logout_inv _ _ _ _ _ I H) as (s' & E & _ & Hi). rewrite E. cbn [fst snd]. split; [exact Hi | reflexivity].
 Qed.
 
